@@ -167,6 +167,12 @@ impl Prop for C02 {
             match parse_into(text.as_bytes(), &mut buf) {
                 Ok(Ok((_n, bytes))) => bins.push(bytes),
                 Ok(Err(e)) => {
+                    // texts nested more deeply than the independent reader follows (128 levels) are outside the
+                    // domain (see C01): the renderings of such a case are not compared
+                    if serde_json::from_str::<serde_json::Value>(&text).is_err() {
+                        out.label("outside:nesting-limit");
+                        return out;
+                    }
                     out.fail(format!("C02:parse-failed:{e}"), format!("rendering rejected: {e}: {text}"));
                     return out;
                 }
